@@ -972,3 +972,17 @@ End Live.
 (* ------------------------------------------------------------------ what lookup.query tells the table *)
 Lemma track_success_iff r : track_success r = true <-> r <> [].
 Proof. unfold track_success. rewrite Nat.ltb_lt. destruct r; simpl; split; intros H; try lia; easy. Qed.
+
+(* ------------------------------------------------------------------ the reply the real worker hands to the lookup *)
+Lemma lookup_worker_reply_spec (key : N -> N) self r :
+  exists l, lookup_worker_reply key self r = Ok l /\ ~ In self l /\ (length l <= findnodes_limit)%nat /\
+            incl l r /\ sorted key l.
+Proof.
+  unfold lookup_worker_reply.
+  destruct (push_all_ok key (filter (fun n => negb (N.eqb n self)) r) [] findnodes_limit) as [l [H1 [H2 [H3 H4]]]];
+    [constructor | simpl; lia |].
+  exists l. repeat split; try assumption.
+  - intros Hin. apply H4 in Hin. simpl in Hin. apply filter_In in Hin. destruct Hin as [_ Hn].
+    rewrite N.eqb_refl in Hn. discriminate.
+  - intros x Hx. apply H4 in Hx. simpl in Hx. apply filter_In in Hx. tauto.
+Qed.
